@@ -324,7 +324,10 @@ pub fn world_b_handshake(property: &str, scenario: &str, seed: u64, run: u64, th
         expect.push(if r.chance(0.25) { Some(2) } else { None });
     }
     let expect2 = expect.clone();
-    let topo = topology(&mut plan, &mut r, n_clients, 2, scfg, 64, 32, |r, i| {
+    // a server with room for one or two connections in some runs of the faulty family (what is
+    // refused for another reason is then also refused for lack of room: the reason given counts)
+    let (cap_total, cap_active) = if !clean && r.chance(0.2) { (r.range(1, 3), r.range(1, 2)) } else { (64, 32) };
+    let topo = topology(&mut plan, &mut r, n_clients, 2, scfg, cap_total, cap_active, |r, i| {
         let mut c = sample_cfg(r);
         let mut s = base_server.clone();
         make_compatible(&mut c, &mut s);
@@ -1355,6 +1358,13 @@ pub fn world_b_disconnect(property: &str, scenario: &str, seed: u64, run: u64, t
         2 => plan.push(t_call + r.below(1_000_000), 2, Op::Link { from: None, to: None, rule: clean_rule(latency) }),
         _ => (),
     }
+    // failing send calls on the caller's socket while it repeats its request
+    if r.chance(0.15) {
+        let (caller, _) = if plan.timeline.iter().any(|t| matches!(&t.op, Op::Disconnect { ep: 0, .. } | Op::DisconnectNow { ep: 0, .. })) { (0usize, 0) } else { (topo.clients[0], 0) };
+        for _ in 0..r.range(1, 4) {
+            plan.push(t_call + r.range(0, 20_000_000), r.u32() | 1, Op::SockErr { ep: caller, recv: 0, send: r.range(1, 12) as u32 });
+        }
+    }
     plan.params.insert("short_ch".into(), 63.0);
     plan.params.insert("fair_after_heal".into(), 0.0);
     small_windows_b(&mut plan, seed, run, 0.3);
@@ -1517,6 +1527,22 @@ pub fn world_b_idle(property: &str, scenario: &str, seed: u64, run: u64, thoroug
     let horizon = hours * 3_600_000_000;
     plan.push(2000, 3, Op::StepEvery { ep: c, period_us: period_c, until_us: horizon });
     plan.push(2500, 3, Op::StepEvery { ep: 0, period_us: period_s, until_us: horizon });
+    // sparse chatter in both directions for a while in some runs (small Unreliable packets once
+    // or twice a second: both rate controllers see tiny receive rates), then silence
+    if r.chance(0.3) {
+        let t0 = 8_000_000u64;
+        let secs = r.range(10, 30);
+        let gap = r.range(400_000, 1_100_000);
+        let len = r.range(12, 40) as u32;
+        let mut tag = 500u32;
+        let mut t = t0;
+        while t < t0 + secs * 1_000_000 {
+            plan.push(t, 0x4000_0000 + tag, Op::Send { ep: c, to: None, ch: 0, mode: MODE_UNRELIABLE, len, tag });
+            plan.push(t + 1, 0x4000_0000 + tag + 1, Op::Send { ep: 0, to: Some(c), ch: 0, mode: MODE_UNRELIABLE, len, tag: tag + 1 });
+            tag += 2;
+            t += gap;
+        }
+    }
     // a little traffic at the very beginning in some runs, then silence
     if r.chance(0.5) {
         for tag in 0..r.range(1, 10) as u32 {
@@ -1676,6 +1702,14 @@ pub fn world_b_retry(property: &str, scenario: &str, seed: u64, run: u64, _thoro
             } else {
                 plan.push(t_call, 0x6000_0000, Op::DisconnectNow { ep: 0, to: Some(c) });
             }
+        }
+    }
+    // failing send calls while the requests are being repeated: an attempt that did not leave the
+    // host is an attempt all the same (the budget is counted in time)
+    if r.chance(0.3) {
+        for _ in 0..r.range(1, 4) {
+            let ep = if run % 3 == 2 && r.chance(0.4) { 0 } else { c };
+            plan.push(shift + r.range(1_000_000, 30_000_000), r.u32() | 1, Op::SockErr { ep, recv: r.below(3) as u32, send: r.range(1, 6) as u32 });
         }
     }
     plan.push(shift + 1_000_000 + r.below(period_c), 3, Op::StepEvery { ep: c, period_us: period_c, until_us: horizon });
